@@ -156,6 +156,118 @@ def run(ctx):
         extra(ctx)
 
 
+PRIVATE = {"oct": ["k"], "RSA": ["d", "p", "q", "dp", "dq", "qi", "oth"], "EC": ["d"]}
+
+
+def secrets_of(key):
+    out = []
+    if isinstance(key, str):
+        return [key] if len(key) >= 6 else []
+    if isinstance(key, list):
+        return sum((secrets_of(k) for k in key), [])
+    if isinstance(key, dict):
+        if isinstance(key.get("keys"), list):
+            return secrets_of(key["keys"])
+        for m in PRIVATE.get(key.get("kty"), []):
+            if isinstance(key.get(m), str) and len(key[m]) >= 8:
+                out.append(key[m])
+    return out
+
+
+def scan(tok, secrets):
+    """-> description of the first leak found in a produced object, else None: a private member name inside any embedded
+    key object, or the text of a secret anywhere (also inside the decoded protected headers)"""
+    import base64
+    texts = [json.dumps(tok)]
+    def walk(v, path):
+        if isinstance(v, dict):
+            if "kty" in v:
+                for m in PRIVATE.get(v.get("kty"), ["d", "k"]):
+                    if m in v:
+                        return "private member %r in the key object at %s" % (m, path)
+            for k, x in v.items():
+                if k == "protected" and isinstance(x, str):
+                    try:
+                        dec = json.loads(base64.urlsafe_b64decode(x + "=" * (-len(x) % 4)))
+                        texts.append(json.dumps(dec))
+                        r = walk(dec, path + "/protected")
+                        if r:
+                            return r
+                    except Exception:
+                        pass
+                r = walk(x, path + "/" + k)
+                if r:
+                    return r
+        elif isinstance(v, list):
+            for i, x in enumerate(v):
+                r = walk(x, "%s[%d]" % (path, i))
+                if r:
+                    return r
+        return None
+    r = walk(tok, "")
+    if r:
+        return r
+    for s_ in secrets:
+        for t in texts:
+            if s_ in t:
+                return "the secret value %s... appears in the output" % s_[:12]
+    return None
+
+
+def run_produced(ctx):
+    """every JWS / JWE the library produces, over all algorithms and recipient lists: no private member, content key or
+    password in it"""
+    import keys as K, jwsgen as G, jwegen as E
+    rng = ctx.rng
+    pool = K.pool(ctx.jose)
+    ops = []
+    pay = G.b64u(b"produced objects")
+    for name in ("oct-32", "oct-64", "EC-P256", "EC-P384", "EC-P521", "EC-K256", "RSA-2048"):
+        for alg in G.algs_for(name, pool[name]):
+            for t in ({"protected": {"alg": alg}}, {"header": {"alg": alg}}, None):
+                a = {"jws": {"payload": pay}, "jwk": pool[name] if t is not None else dict(pool[name], alg=alg), "_keys": [pool[name]]}
+                if t is not None:
+                    a["sig"] = t
+                ops.append(("jws.sig", a))
+    ops.append(("jws.sig", {"jws": {"payload": pay}, "jwk": [pool["oct-32"], pool["EC-P256"], pool["RSA-2048"]], "_keys": [pool["oct-32"], pool["EC-P256"], pool["RSA-2048"]]}))
+    for wrap in E.WRAPS:
+        for enc in (E.ENCS if wrap in ("dir", "ECDH-ES") else rng.sample(E.ENCS, 2)):
+            key = E.key_for(pool, wrap, enc, rng)
+            for place in ("protected", "unprotected", "recipient", "infer"):
+                jwe, rcp = {}, None
+                if place == "protected":
+                    jwe = {"protected": {"alg": wrap, "enc": enc}}
+                elif place == "unprotected":
+                    jwe = {"unprotected": {"alg": wrap, "enc": enc}}
+                elif place == "recipient":
+                    jwe, rcp = {"protected": {"enc": enc}}, {"header": {"alg": wrap}}
+                a = {"jwe": jwe, "jwk": key, "pt": "00112233", "rand": rng.randbytes(300).hex(), "_keys": [key]}
+                if rcp:
+                    a["rcp"] = rcp
+                ops.append(("jwe.enc", a))
+                ops.append(("jwe.enc_jwk", {"jwe": jwe, "rcp": rcp or {}, "jwk": key, "cek": {}, "rand": rng.randbytes(300).hex(), "_keys": [key], "_cek": True}))
+    multi = [pool["oct-16"], pool["EC-P256"], pool["EC-P521"], pool["RSA-2048"], "a password of some length"]
+    ops.append(("jwe.enc", {"jwe": {"protected": {"enc": "A128CBC-HS256"}}, "jwk": multi, "pt": "00", "rand": rng.randbytes(900).hex(), "_keys": multi}))
+    sent = [(o, {k: v for k, v in a.items() if not k.startswith("_")}) for o, a in ops]
+    real = ctx.real(sent)
+    n = 0
+    for (o, a), r in zip(ops, real):
+        ctx.evaluations += 1
+        if not r.get("ok"):
+            continue
+        n += 1
+        tok = r.get("jws") or r.get("jwe")
+        secrets = secrets_of(a["_keys"])
+        if a.get("_cek") or o == "jwe.enc":
+            k = (r.get("cek") or {}).get("k")
+            if k and not any(isinstance(x, dict) and x.get("k") == k for x in a["_keys"]):
+                secrets.append(k)
+        leak = scan(tok, secrets)
+        if leak:
+            ctx.pfails.append(("produced:" + o, "%s: %s" % (leak, json.dumps(tok)[:400]), o, {k: v for k, v in a.items() if not k.startswith("_")}, r))
+    ctx.count("produced-objects-scanned", n)
+
+
 def replay(ctx, rp):
     ops = [(o, a) for o, a in rp.get("ops", [])] + [(d["op"], d["args"]) for d in rp.get("correspondence_disagreements", [])]
     ctx.compare(ops, p_check, nontrivial)
